@@ -99,8 +99,51 @@ type AdmitKnobs struct {
 
 func mutateForUpdate(r *Rng, p *corev1.Pod) (*corev1.Pod, string) {
 	old := p.DeepCopy()
-	switch r.Intn(14) {
+	switch r.Intn(16) {
 	case 0:
+		return old, "identical"
+	case 14:
+		// the multiset of images stays, their assignment to containers changes: two containers of one list exchange images,
+		// or one takes an image another container of the stored pod already uses (in its own list or in another one)
+		lists := []*[]corev1.Container{&old.Spec.Containers, &old.Spec.InitContainers}
+		l := lists[r.Intn(2)]
+		if len(*l) == 0 {
+			l = lists[0]
+		}
+		if len(*l) >= 2 {
+			i := r.Intn(len(*l) - 1)
+			if (*l)[i].Image != (*l)[i+1].Image {
+				if r.Bool() {
+					(*l)[i].Image, (*l)[i+1].Image = (*l)[i+1].Image, (*l)[i].Image
+					return old, "images-exchanged"
+				}
+				(*l)[i].Image = (*l)[i+1].Image
+				return old, "image-taken-from-neighbour"
+			}
+		}
+		// a single regular container: borrow an init or ephemeral container's image
+		if len(old.Spec.InitContainers) > 0 && old.Spec.InitContainers[0].Image != old.Spec.Containers[0].Image {
+			old.Spec.Containers[0].Image = old.Spec.InitContainers[0].Image
+			return old, "image-taken-from-neighbour"
+		}
+		if len(old.Spec.EphemeralContainers) > 0 && old.Spec.EphemeralContainers[0].Image != old.Spec.Containers[0].Image {
+			old.Spec.Containers[0].Image = old.Spec.EphemeralContainers[0].Image
+			return old, "image-taken-from-neighbour"
+		}
+		return old, "identical"
+	case 15:
+		// ephemeral containers: names exchanged with the images staying in place, or an image another one already uses
+		if n := len(old.Spec.EphemeralContainers); n >= 2 {
+			e := old.Spec.EphemeralContainers
+			if e[0].Image != e[1].Image {
+				if r.Bool() {
+					e[0].Image, e[1].Image = e[1].Image, e[0].Image
+					return old, "ephemeral-images-exchanged"
+				}
+				e[0].Image = e[1].Image
+				return old, "image-ephemeral"
+			}
+		}
 		return old, "identical"
 	case 11:
 		// the same image spelled differently: still another string, still an image change
